@@ -1,7 +1,7 @@
 #!/bin/bash
 # tools/run_all.sh [tier] : every check once; prints one line per check
 TIER="${1:-quick}"
-cd /verif
+cd "$(dirname "$0")/.." || exit 2
 for p in $(python3 -c "import json; print(' '.join(c['property_id'] for c in json.load(open('MANIFEST.json'))['checks']))"); do
   s=$(date +%s)
   out=$(./check $p --tier $TIER 2>&1); code=$?
